@@ -25,16 +25,6 @@ open RtcVerif RtcVerif.Interp
 
 /-! ## The specification -/
 
-/-- what the data of a valid problem satisfy: every member supplies a value for every parameter,
-    every constant input series is non-empty with increasing stamps and a known interpolation
-    mode, the differentiated states are among the collocated variables -/
-structure Inst.WF (I : Inst) : Prop where
-  par_len : ∀ m, m < I.E → (I.pvals m).length = I.npar
-  cin_sorted : ∀ m j, m < I.E → j < I.sys.nc → Sorted (I.cin m j)
-  cin_ne : ∀ m j, m < I.E → j < I.sys.nc → I.cin m j ≠ []
-  cmode_ok : ∀ j, j < I.sys.nc → I.cmode j ≤ 2
-  nd_le : I.sys.nd ≤ I.sys.k
-
 /-- the member's own constant inputs at collocation time `i` -/
 def memberInputs (I : Inst) (m i : Nat) : List Rat :=
   (List.range I.sys.nc).map (fun j => inputOwn I m j (I.sys.ts i))
@@ -93,6 +83,10 @@ theorem C01_inputs_member_own (I : Inst) (hw : I.WF) (m : Nat) (hm : m < I.E) (i
   have hj' := List.mem_range.1 hj
   exact ciVals_getD (I.cmode j) (hw.cmode_ok j hj') (I.cin m j) (hw.cin_sorted m j hm hj')
     (hw.cin_ne m j hm hj') I.sys.tsL i hi
+
+/-- the hypotheses `Inst.WF` of the theorems below are decidable; the model driver evaluates
+    `Inst.wfb` on every instance of the correspondence run and refuses instances outside it -/
+theorem C01_wf_checkable (I : Inst) (h : I.wfb = true) : I.WF := wfb_sound I h
 
 /-! ## The collocation rows are the theta-method residuals -/
 
@@ -409,6 +403,14 @@ example : (∀ m i e, m < 2 → i < 2 → e < 1 → thetaRow F0 I0 Xfeas m i e =
   intro r _
   rw [hg, hb]
   exact ⟨le_refl _, le_refl _⟩
+
+/-- finding F1 at the level of the rows: with the classification of the unrepaired tree member 1
+    (parameter value 2) is transcribed with member 0's value and its row is NOT the theta-method
+    residual; with the repaired classification it is (`C01_rows_eq_theta`) -/
+theorem C01_legacy_F1_rows_witness :
+    collocRowsCode F0 I0.sys { I0.mem 1 with par := effParLegacy I0.E I0.npar I0.pvals 1 } X0 1
+      ≠ thetaRes F0 I0 X0 1 1 := by
+  decide +kernel
 
 /-- a control on its own coarser stamps `{0, 3}` (linear mode): at the collocation time `1` the
     rows see the interpolant of its physical values -/
